@@ -71,6 +71,9 @@ type Conn struct {
 	// replies. matched tells the virtual time-out logic that a reply completing this query has been
 	// queued; a non-nil err is returned from WriteTo (the datagram is logged as Failed).
 	OnWrite func(o Out) (matched bool, err error)
+	// ShortWrite, if set and true for a datagram, makes WriteTo report one byte less than it was given,
+	// with a nil error (a truncating path).
+	ShortWrite func(o Out) bool
 	// BeforeWrite, if set, runs before anything else in WriteTo (used to park senders).
 	BeforeWrite func(to *net.UDPAddr, data []byte)
 	matched     map[int64]bool
@@ -139,6 +142,9 @@ func (c *Conn) WriteTo(b []byte, addr net.Addr) (int, error) {
 		if err != nil {
 			return 0, err
 		}
+	}
+	if sw := c.ShortWrite; sw != nil && len(b) > 0 && sw(o) {
+		return len(b) - 1, nil
 	}
 	return len(b), nil
 }
